@@ -38,8 +38,9 @@ struct ReqObs {
 
 struct Obs {
     reqs: Vec<Option<ReqObs>>,
-    /// per tick index: (session id -> closed) observed 60 ms after the tick
-    ticks: Vec<(u64, BTreeMap<u64, bool>, Vec<(u64, u64, bool)>)>,
+    /// per tick index: (session id -> closed) and the idle map, observed `obs_delay` after the tick (60 ms;
+    /// after the longest possible reaper pass in the mid-pass style), with the observation instant
+    ticks: Vec<(u64, BTreeMap<u64, bool>, Vec<(u64, u64, bool)>, u64)>,
     kills: Vec<(u64, u64)>, // (time, session id)
     dials: usize,
     period_us: u64,
@@ -56,7 +57,10 @@ fn gen_pool_plan(g: &mut Gen, sequential_bias: bool) -> Value {
     let safe = |g: &mut Gen, period_start: u64| period_start + g.range(100, p - 300);
     let mut ops = Vec::new();
     let mut period = 0u64;
-    let style = if sequential_bias { *g.pick(&["sequential", "sequential", "bursts", "mixed"]) } else { *g.pick(&["sequential", "bursts", "mixed", "mixed"]) };
+    let style = if sequential_bias { *g.pick(&["sequential", "sequential", "bursts", "mixed", "midpass"]) } else { *g.pick(&["sequential", "bursts", "mixed", "mixed", "midpass"]) };
+    if style == "midpass" {
+        return gen_midpass_plan(g, net);
+    }
     let n = g.range(2, 9);
     let mut last_end = 0u64;
     for _ in 0..n {
@@ -120,6 +124,54 @@ fn gen_pool_plan(g: &mut Gen, sequential_bias: bool) -> Value {
     }
     let end_period = (last_end / p) + timeout_mult + 3 + period;
     json!({"net": net, "interval_s": interval, "timeout_s": interval * timeout_mult, "min_idle": min_idle, "ops": ops, "style": style, "end_ms": std::cmp::min(end_period, period + 40) * p + 200})
+}
+
+/// Requests that arrive *while the reaper is at work*. A reaper pass has a duration when the transport
+/// shutdown of a session it closes does not complete (Session::close gives it 1 s): K sessions are created
+/// by a burst, some of their connections never complete a shutdown, and 1-3 requests are issued inside the
+/// pass in which they come due (and the passes next to it). The pool as implemented holds its lock for the
+/// whole pass, so such a request waits and then sees the map after the pass — exactly what the model's
+/// atomic tick predicts; observations are taken after the longest possible pass.
+fn gen_midpass_plan(g: &mut Gen, net: Value) -> Value {
+    let interval = *g.pick(&[5u64, 5, 30]);
+    let timeout_mult = *g.pick(&[2u64, 2, 3]);
+    let min_idle = *g.pick(&[0u64, 1, 1, 2]);
+    let p = interval * 1000;
+    let k = g.range(2, 4);
+    let t0 = g.range(100, 1_500);
+    let mut ops = Vec::new();
+    for _ in 0..k {
+        ops.push(json!({"t_ms": t0, "op": "request", "hold_ms": *g.pick(&[20u64, 20, 200])}));
+    }
+    let slow: Vec<bool> = (0..k).map(|_| g.chance(70)).collect();
+    // sessions idle since ~t0 come due at the first tick >= t0 + timeout, i.e. tick timeout_mult + 1
+    let due = timeout_mult + 1;
+    let mut times: Vec<u64> = Vec::new();
+    for _ in 0..g.range(1, 3) {
+        let tick = due + *g.pick(&[0u64, 0, 0, 1]) - if g.chance(15) { 1 } else { 0 };
+        for _ in 0..40 {
+            // inside the pass, clear of the instants at which a pass can end (whole seconds after the tick)
+            let d = g.range(120, std::cmp::min(k * 1000 + 90, p - 400)); // (the observation is at k s + 300 ms)
+            let t = tick * p + d;
+            if d % 1000 >= 100 && d % 1000 <= 900 && !times.iter().any(|x| (*x as i64 - t as i64).abs() < 60) {
+                times.push(t);
+                break;
+            }
+        }
+    }
+    times.sort_unstable();
+    let mut last_end = t0 + 200;
+    for t in times {
+        let mut hold = *g.pick(&[20u64, 200, p / 2, p + p / 2]);
+        while (t + hold) % p < k * 1000 + 500 || (t + hold) % p > p - 100 {
+            hold += 130;
+        }
+        last_end = std::cmp::max(last_end, t + hold);
+        ops.push(json!({"t_ms": t, "op": "request", "hold_ms": hold}));
+    }
+    let end_period = (last_end / p) + timeout_mult + 3;
+    json!({"net": net, "interval_s": interval, "timeout_s": interval * timeout_mult, "min_idle": min_idle, "ops": ops, "style": "midpass",
+        "slow_shutdown": slow, "slow_from_ms": t0 + 80, "obs_delay_ms": k * 1000 + 300, "end_ms": end_period * p + k * 1000 + 400})
 }
 
 async fn run_history(plan: &Value) -> Result<Obs, String> {
@@ -196,12 +248,29 @@ async fn run_history(plan: &Value) -> Result<Obs, String> {
             });
         }
     }
+    if let Some(slow) = plan["slow_shutdown"].as_array() {
+        // from now on the transport shutdown of these connections never completes (close() takes its 1 s)
+        let slow: Vec<bool> = slow.iter().map(|b| b.as_bool().unwrap_or(false)).collect();
+        let from = plan["slow_from_ms"].as_u64().unwrap_or(0);
+        anytls_simnet::spawn(async move {
+            sleep(Duration::from_millis(from)).await;
+            let conns = world::with(|w| w.net.conns_to(server_addr())).unwrap_or_default();
+            for (i, c) in conns.iter().enumerate() {
+                if slow.get(i).copied().unwrap_or(false) {
+                    c.fwd.set_shutdown_mode(anytls_simnet::pipe::ShutdownMode::Hang);
+                    c.back.set_shutdown_mode(anytls_simnet::pipe::ShutdownMode::Hang);
+                    world::fault_fired("transport.shutdown_never_completes");
+                }
+            }
+        });
+    }
     // observe after every tick
     let end_us = plan["end_ms"].as_u64().unwrap_or(10_000) * 1000;
+    let obs_delay_us = plan["obs_delay_ms"].as_u64().unwrap_or(60) * 1000;
     let mut ticks = Vec::new();
     let mut k = 0u64;
     loop {
-        let at = k * period_us + 60_000;
+        let at = k * period_us + obs_delay_us;
         if at > end_us {
             break;
         }
@@ -211,7 +280,7 @@ async fn run_history(plan: &Value) -> Result<Obs, String> {
         }
         let snap: BTreeMap<u64, bool> = sessions.lock().unwrap().iter().map(|(id, s)| (*id, s.is_closed())).collect();
         let idle = client.verif_pool().verif_idle().await;
-        ticks.push((k, snap, idle.iter().map(|(seq, id, closed, _)| (*seq, *id, *closed)).collect()));
+        ticks.push((k, snap, idle.iter().map(|(seq, id, closed, _)| (*seq, *id, *closed)).collect(), now_us()));
         k += 1;
     }
     let now = now_us();
@@ -268,6 +337,7 @@ fn run_m1(plan: &Value, obs: &Obs) -> M1Result {
         Batch(Vec<usize>),
         Kill(u64),
         Tick(u64),
+        Observe(u64),
     }
     let mut evs: Vec<(u64, u8, Ev)> = Vec::new();
     let mut by_start: BTreeMap<u64, Vec<usize>> = BTreeMap::new();
@@ -283,8 +353,9 @@ fn run_m1(plan: &Value, obs: &Obs) -> M1Result {
     for (t, id) in &obs.kills {
         evs.push((*t, 0, Ev::Kill(*id)));
     }
-    for (k, _, _) in &obs.ticks {
+    for (k, _, _, t_obs) in &obs.ticks {
         evs.push((k * p, 2, Ev::Tick(*k)));
+        evs.push((*t_obs, 3, Ev::Observe(*k)));
     }
     evs.sort_by_key(|e| (e.0, e.1));
     let mut created = 0usize;
@@ -375,8 +446,10 @@ fn run_m1(plan: &Value, obs: &Obs) -> M1Result {
                         reaped.insert(id, kidx);
                     }
                 }
-                // compare with what was observed right after this tick
-                if let Some((_, snap, idle_obs)) = obs.ticks.iter().find(|x| x.0 == kidx) {
+            }
+            Ev::Observe(kidx) => {
+                // compare with what was observed after this tick's pass
+                if let Some((_, snap, idle_obs, _)) = obs.ticks.iter().find(|x| x.0 == kidx) {
                     for (id, is_closed) in snap {
                         if known.contains(id) && *is_closed != closed.contains(id) {
                             dev.push(format!("tick {}: session {} observed closed={}, the pool model says closed={}", kidx, id, is_closed, closed.contains(id)));
@@ -459,7 +532,7 @@ impl Check for C12 {
             let killed: BTreeSet<u64> = obs.kills.iter().map(|k| k.1).collect();
             let mut prev: BTreeMap<u64, bool> = BTreeMap::new();
             let mut reaper_hits = 0u64;
-            for (k, snap, _) in &obs.ticks {
+            for (k, snap, _, _) in &obs.ticks {
                 let t = k * p;
                 for (id, closed) in snap {
                     let was = prev.get(id).copied().unwrap_or(false);
@@ -490,7 +563,7 @@ impl Check for C12 {
                 }
             }
             // (d) surplus idle sessions are eventually closed
-            if let Some((klast, snap, _)) = obs.ticks.last() {
+            if let Some((klast, snap, _, _)) = obs.ticks.last() {
                 let t_end = klast * p;
                 let mut idle_long: Vec<u64> = Vec::new();
                 for (id, closed) in snap {
@@ -520,7 +593,7 @@ impl Check for C12 {
         out
     }
     fn rule(&self) -> &'static str {
-        "one case = a history of 2-9 request groups (single requests or bursts of up to 4 starting at the same instant; strictly sequential, bursty or mixed) whose streams are held for 20 ms .. 4 intervals, optional external session deaths, under pool settings interval {1,5,30} s x idle timeout {2,3,10} intervals x minimum idle {0,1,2,3}, observed after every reaper tick until several timeouts after the last request (real heartbeat running with the same settings); operation instants keep >= 100 ms clear of tick instants; step-by-step comparison with an executable model of the pool as implemented + the property clauses judged on the observations; non-trivial = at least two requests succeeded; distinct = distinct (plan hash, poll-order fingerprint)"
+        "one case = a history of 2-9 request groups (single requests or bursts of up to 4 starting at the same instant; strictly sequential, bursty or mixed) whose streams are held for 20 ms .. 4 intervals, optional external session deaths, under pool settings interval {1,5,30} s x idle timeout {2,3,10} intervals x minimum idle {0,1,2,3}, observed after every reaper tick until several timeouts after the last request (real heartbeat running with the same settings); operation instants keep >= 100 ms clear of tick instants, except in the mid-pass style (1 case in 5: 2-4 sessions from a burst, connections whose transport shutdown never completes so that the reaper pass in which they come due lasts 1 s per session, 1-3 requests issued inside that pass, observation after the longest possible pass); step-by-step comparison with an executable model of the pool as implemented + the property clauses judged on the observations; non-trivial = at least two requests succeeded; distinct = distinct (plan hash, poll-order fingerprint)"
     }
     fn real_components(&self) -> Vec<&'static str> {
         vec!["Client::create_proxy_stream / create_stream / create_new_session", "SessionPool: get_idle_session, add_idle_session, reaper task", "Session heartbeat (same settings)", "Server::listen + TcpProxyHandler, rustls"]
@@ -529,7 +602,7 @@ impl Check for C12 {
         vec!["network: simulated TCP with 100-300 us latency", "application/target: harness (echo)", "reference: executable pool model M1 + ideal clauses"]
     }
     fn assumptions(&self) -> Vec<&'static str> {
-        vec!["idle timeout >= 2 x check interval so that the heartbeat, which shares these settings, never closes a healthy session", "requests and stream ends avoid tick instants by >= 100 ms, so the model need not guess same-instant order"]
+        vec!["idle timeout >= 2 x check interval so that the heartbeat, which shares these settings, never closes a healthy session", "requests and stream ends avoid tick instants by >= 100 ms, so the model need not guess same-instant order (mid-pass style: requests inside a pass avoid the instants at which a pass can end)"]
     }
 }
 
@@ -573,7 +646,11 @@ impl Check for C13 {
             order.sort_by_key(|r| (r.t_start, r.sid));
             let reaper_closed_at = |id: u64, t: u64| -> bool {
                 // closed (by anything) before t, as far as the tick observations tell
-                obs.ticks.iter().any(|(k, snap, _)| k * obs.period_us + 60_000 <= t && snap.get(&id).copied().unwrap_or(false)) || obs.kills.iter().any(|(kt, kid)| *kid == id && *kt <= t)
+                // (a session the reaper takes in the pass that is under way when the request arrives is gone for
+                // that request: the pool keeps its lock for the whole pass)
+                obs.ticks.iter().any(|(_, snap, _, t_obs)| *t_obs <= t && snap.get(&id).copied().unwrap_or(false))
+                    || obs.kills.iter().any(|(kt, kid)| *kid == id && *kt <= t)
+                    || (j.m1_exact && m1.reaped.get(&id).map(|k| k * obs.period_us <= t).unwrap_or(false))
             };
             let mut redials = 0u64;
             let mut first_redial: Option<String> = None;
@@ -607,7 +684,7 @@ impl Check for C13 {
                 peak = std::cmp::max(peak, c);
             }
             let mut worst: Option<(u64, usize)> = None;
-            for (k, snap, _) in &obs.ticks {
+            for (k, snap, _, _) in &obs.ticks {
                 let open = snap.values().filter(|c| !**c).count();
                 if open > peak + min_idle && worst.map(|w| open > w.1).unwrap_or(true) {
                     worst = Some((*k, open));
@@ -629,7 +706,7 @@ impl Check for C13 {
         out
     }
     fn rule(&self) -> &'static str {
-        "one case = a history of 2-9 request groups (strictly sequential with the previous stream ended before the next request starts, bursts of up to 4 simultaneous requests, or mixed; durations 20 ms .. 4 intervals; idle gaps up to 5 intervals) under pool settings interval {1,5,30} s x timeout {2,3,10} intervals x minimum idle {0,1,2,3}, optional external session deaths; TLS connections counted on the simulated network, open sessions observed after every tick; step-by-step comparison with the executable pool model + the two property clauses judged on the observations; non-trivial = at least two requests succeeded; distinct = distinct (plan hash, poll-order fingerprint)"
+        "one case = a history of 2-9 request groups (strictly sequential with the previous stream ended before the next request starts, bursts of up to 4 simultaneous requests, or mixed; durations 20 ms .. 4 intervals; idle gaps up to 5 intervals) under pool settings interval {1,5,30} s x timeout {2,3,10} intervals x minimum idle {0,1,2,3}, optional external session deaths, or the mid-pass style (requests arriving while the reaper is closing sessions whose shutdown does not complete); TLS connections counted on the simulated network, open sessions observed after every tick; step-by-step comparison with the executable pool model + the two property clauses judged on the observations; non-trivial = at least two requests succeeded; distinct = distinct (plan hash, poll-order fingerprint)"
     }
     fn real_components(&self) -> Vec<&'static str> {
         vec!["Client::create_proxy_stream / create_stream / create_new_session", "SessionPool: get_idle_session, add_idle_session, reaper task", "Session heartbeat", "Server::listen + TcpProxyHandler, rustls"]
